@@ -168,10 +168,10 @@ def run(ctx: Ctx):
     n_inh = 0
     for c in own_nodes(inh):
         if not (isinstance(c, ast.Call) and isinstance(c.func, ast.Attribute) and c.func.attr == "inherit" and c.args
-                and "parent_attr" in norm(c.args[0])):
+                and "parent" in norm(c.args[0])):
             continue
         from .common import enclosing_ifs
-        guards = [(i, b) for (i, b) in enclosing_ifs(c, inh.node) if "parent_attr." in norm(i.test)]
+        guards = [(i, b) for (i, b) in enclosing_ifs(c, inh.node) if "parent" in norm(i.test) and norm(i.test) != "self.parent"]
         n_inh += 1
 
         def ev(e, prov, inhd):
@@ -184,10 +184,14 @@ def run(ctx: Ctx):
                 v = ev(e.operand, prov, inhd)
                 return None if v is None else not v
             t = norm(e)
-            if t == "parent_attr.provided":
+            if t == "parent_attr.provided" or (isinstance(e, ast.Call) and norm(e.func) == "self.parent.provided"):
                 return prov
-            if t == "parent_attr.inherited":
+            if t == "parent_attr.inherited" or (isinstance(e, ast.Call) and norm(e.func) == "self.parent.inherited"):
                 return inhd
+            if t == "self.parent":
+                return True
+            if t == "my_attr.provided" or (isinstance(e, ast.Call) and norm(e.func) == "self.provided"):
+                return False              # the child under consideration has no value of its own
             return None
         ok = True
         und = False
